@@ -176,7 +176,13 @@ func TestVerif_C02(t *testing.T) {
 
 	steps := run.N(60, 150)
 	one := func(label string, rng *verifkit.Rand, p E1Profile, i int) {
-		h := e1GenHistory(rng, p)
+		var h *E1History
+		switch label {
+		case "stalled":
+			h = e1GenStalledHistory(rng, p.DryRun)
+		default:
+			h = e1GenHistory(rng, p)
+		}
 		mid := 0
 		var e *E1
 		forwardedAt := 0
@@ -254,6 +260,10 @@ func TestVerif_C02(t *testing.T) {
 		one("dry", rng, E1Profile{MaxSteps: steps, DryRun: true}, i)
 	})
 	run.Cases("slow-decisions", run.N(30, 600), func(i int, rng *verifkit.Rand) { c02Slow(t, run, rng, i) })
+	// a whole batch of traces is decided while the outgoing queue (100 000 slots) is full and the upstream blocks
+	run.Cases("stalled-upstream", run.N(4, 40), func(i int, rng *verifkit.Rand) {
+		one("stalled", rng, E1Profile{DryRun: i%4 == 3}, i)
+	})
 }
 
 // ---- slow decisions --------------------------------------------------------------------------------
@@ -297,7 +307,7 @@ func (s *c02SlowShim) GetSampleRate(tr *types.Trace) (uint, bool, string, string
 func c02Slow(t *testing.T, run *verifkit.Run, rng *verifkit.Rand, i int) {
 	tick := 100 * time.Millisecond
 	def := e1GenSampler(rng, true) // deterministic 1/N or rules on verif.keep
-	cfg := E1Config{Workers: 1, AddRuleReason: rng.Bool(),
+	cfg := E1Config{Workers: 1, AddRuleReason: rng.Bool(), HealthTimeout: 3 * time.Second,
 		Traces: config.TracesConfig{SendTicker: config.Duration(tick), SendDelay: config.Duration(verifkit.Pick(rng, 200, 300) * int(time.Millisecond)),
 			TraceTimeout: config.Duration(verifkit.Pick(rng, 1000, 2000) * int(time.Millisecond)), SpanLimit: 0, MaxExpiredTraces: uint(verifkit.Pick(rng, 0, 0, 3000, 6))},
 		Samplers: map[string]*config.V2SamplerChoice{"env-a": def.Choice}}
